@@ -6,6 +6,26 @@ from . import states
 from .mainloop import MainLoop
 
 
+class InjectedAttributeError(AttributeError):
+    pass
+
+
+class InjectedIndexError(IndexError):
+    pass
+
+
+class InjectedValueError(ValueError):
+    pass
+
+
+class InjectedRuntimeError(RuntimeError):
+    pass
+
+
+FAULT_CLASSES = [stubs.InjectedFault, InjectedAttributeError, InjectedIndexError, InjectedValueError,
+                 InjectedRuntimeError]
+
+
 class C20(Check):
     pid = 'C20'
     validate = True
@@ -33,7 +53,7 @@ class C20(Check):
               'edits': [('fast_ticc/main_loop.py', '    finally:\n', '    except RuntimeError:\n        task_pool.terminate()\n        raise\n    else:\n')]}
 
     def bounds(self, tier):
-        return {'iteration_limit': '1..3', 'K': '2..3', 'fault position': 'symbolic (round, cluster) / (round, phase)',
+        return {'iteration_limit': '1..3', 'K': '2..3', 'fault position': 'symbolic (round, cluster) / (round, phase)', 'fault class': 'Exception, AttributeError, IndexError, ValueError, RuntimeError (subclasses)', 'front end': 'single and joint',
                 'multiprocessing env': ['unset', 'set'], 'num_processors': '1..3'}
 
     def configs(self, tier):
@@ -47,7 +67,7 @@ class C20(Check):
         cfgs.append(Config('wrong_input', self.wrong_input, {}))
         return cfgs
 
-    def _call(self, c, K, lim, env=None, fault=None, task_fault=None, nproc=1, modes=None, labels=None):
+    def _call(self, c, K, lim, env=None, fault=None, task_fault=None, nproc=1, modes=None, labels=None, joint=False):
         Rp = self.R
         P = 4
         data = np.zeros((P, 1))
@@ -59,22 +79,26 @@ class C20(Check):
         with ml:
             stubs.StubPool.fault = task_fault
             try:
-                res = Rp.front_end.ticc_labels(data, window_size=1, num_clusters=K, iteration_limit=lim,
-                                               min_cluster_size=1, sparsity_weight=0.1, label_switching_cost=1.0,
-                                               num_processors=nproc)
+                kw = dict(window_size=1, num_clusters=K, iteration_limit=lim, min_cluster_size=1, sparsity_weight=0.1,
+                          label_switching_cost=1.0, num_processors=nproc)
+                if joint:
+                    res = Rp.front_end.ticc_joint_labels([data[:2], data[2:]], **kw)
+                else:
+                    res = Rp.front_end.ticc_labels(data, **kw)
             except (core.PathAbort, core.Unsupported, core.HarnessError):
                 raise
             except BaseException as exc:
                 raised = exc
         return res, raised, ml
 
-    def _after(self, c, K, lim, ref_fields):
+    def _after(self, c, K, lim, ref_fields, joint=False):
         """A clean call after the failure must equal a clean call (same summaries => same terms)."""
-        res, raised, ml = self._call(c, K, lim)
+        res, raised, ml = self._call(c, K, lim, joint=joint)
         if raised is not None:
             return False
-        f = [stubs.same_terms(a, b) for a, b in zip(res.point_labels, ref_fields['labels'])]
-        f.append(len(res.point_labels) == len(ref_fields['labels']))
+        got = list(res.point_labels) if not joint else [x for l in res.point_labels for x in l]
+        f = [stubs.same_terms(a, b) for a, b in zip(got, ref_fields['labels'])]
+        f.append(len(got) == len(ref_fields['labels']))
         f.append(len(ml.pools) == 1 and ml.pools[0].released)
         return conj(f)
 
@@ -83,12 +107,15 @@ class C20(Check):
         fr = int(c.int('fault_round', 0, lim - 1))
         fk = int(c.int('fault_cluster', 0, K - 1))
         nproc = int(c.int('nproc', 1, 3))
-        c.notes.update({'kind': 'task', 'K': K, 'limit': lim, 'round': fr, 'cluster': fk, 'env': env, 'nproc': nproc})
+        cls = FAULT_CLASSES[int(c.int('fault_class', 0, len(FAULT_CLASSES) - 1))]
+        joint = bool(int(c.int('joint', 0, 1)))
+        c.notes.update({'kind': 'task', 'K': K, 'limit': lim, 'round': fr, 'cluster': fk, 'env': env, 'nproc': nproc,
+                        'fault_class': cls.__mro__[1].__name__ if cls is not stubs.InjectedFault else 'Exception', 'joint': joint})
         # reference clean call first (fresh state)
-        ref, r0, ml0 = self._call(c, K, lim, env=env, nproc=nproc)
+        ref, r0, ml0 = self._call(c, K, lim, env=env, nproc=nproc, joint=joint)
         if r0 is not None:
             raise core.HarnessError("clean reference call raised %r" % (r0,))
-        ref_fields = {'labels': list(ref.point_labels)}
+        ref_fields = {'labels': list(ref.point_labels) if not joint else [x for l in ref.point_labels for x in l]}
         rounds_ref = len([t for t in ml0.trace if t[1] == 'relabel'])
         if fr >= rounds_ref:
             raise core.PathAbort()          # the run stops before that round: no such task
@@ -113,22 +140,22 @@ class C20(Check):
         def tf2(task):
             if (task.tid // K) == fr and (task.tid % K) == fk:
                 injected.append(task)
-                return True
+                raise cls('injected fault in task %d' % task.tid)
             return False
         try:
-            res, raised, ml = self._call(c, K, lim, env=env, task_fault=tf2, nproc=nproc)
+            res, raised, ml = self._call(c, K, lim, env=env, task_fault=tf2, nproc=nproc, joint=joint)
         finally:
             stubs.StubPool.apply_async = orig_apply
         c.outputs['raised'] = 1 if raised is not None else 0
         c.prove('task_fault_propagates_unchanged',
-                res is None and isinstance(raised, stubs.InjectedFault) and len(injected) >= 1)
+                res is None and type(raised) is cls and len(injected) >= 1)
         later = [t for t in ml.trace if t[1] in ('relabel', 'bic', 'ch', 'point_ll') and t[0] >= fr] + \
                 [t for t in ml.trace if t[0] > fr]
         c.prove('nothing_runs_after_the_fault', not later)
         pool_ok = len(ml.pools) == 1 and ml.pools[0].released and \
             ml.pools[0].processes == (nproc if env else 1)
         c.prove('pool_released_when_call_raises', pool_ok)
-        c.prove('clean_call_after_failure_unaffected', self._after(c, K, lim, ref_fields))
+        c.prove('clean_call_after_failure_unaffected', self._after(c, K, lim, ref_fields, joint=joint))
 
     def phase_fault(self, c, K, limmax):
         lim = int(c.int('limit', 1, limmax))
@@ -138,7 +165,8 @@ class C20(Check):
         ref, r0, ml0 = self._call(c, K, lim)
         ref_fields = {'labels': list(ref.point_labels)}
         rounds_ref = len([t for t in ml0.trace if t[1] == 'relabel'])
-        exc = stubs.InjectedFault('phase fault')
+        exc = FAULT_CLASSES[int(c.int('fault_class', 0, len(FAULT_CLASSES) - 1))]('phase fault')
+        c.notes['fault_class'] = type(exc).__mro__[1].__name__
         fired = []
 
         def fault(rnd, phase):
